@@ -542,8 +542,7 @@ def eventlist_search(rounds=3000, seed=0, kinds=("int", "float")):
                     return {"history": hist, "failure": "size/is_empty wrong: %d vs %d" % (el.size(), len(ref))}
                 # drain a replayed copy
                 import copy
-                cp = EventListHeap()
-                cp._event_list = list(el._event_list)
+                cp = copy.deepcopy(el)      # the whole object, whatever it keeps besides the heap array (public API only)
                 drained = []
                 while not cp.is_empty():
                     drained.append(cp.pop_first())
@@ -1351,6 +1350,8 @@ def simstat_search(rounds=80, seed=0):
         sim = DEVSSimulatorFloat("simstat")
         clock = rng.choice([0.0, 0.0, 5.0])
         sim._simulator_time = clock
+        if sim.simulator_time != clock:
+            return None      # the harness cannot drive the clock of this tree through the field it knows: not applicable
         prod = EventProducer()
         via_clock = False
         if kind == "counter":
